@@ -23,6 +23,12 @@ def prefix_grammar(rng):
     """alternatives sharing a prefix, so that the second alternative re-parses cached elements"""
     X = gen.rand_grammar(rng, 2, dict(names=True, actions=False, fwd=True))
     Y = gen.rand_grammar(rng, 2, dict(names=True, actions=True, fwd=True))
+    if rng.random() < 0.35:
+        # ONE results name on the shared leading term and on a later term of the alternative that fails: what the cache holds for
+        # the leading term must not pick up what the failed alternative accumulated under that name
+        n, kind = rng.choice(gen.NAMES), rng.choice(["name", "namestar"])
+        X = (kind, n, rng.choice([("word", "ab"), ("lit", "a"), ("group", ("word", "ab")), ("plus", ("lit", "a"))]))
+        Y = (rng.choice(["name", "namestar", kind]), n, rng.choice([("word", "ab"), ("lit", ","), ("word", "12")]))
     t1, t2 = rng.choice([("lit", "a"), ("lit", ","), ("word", "ab")]), rng.choice([("lit", "b"), ("lit", ")"), ("empty",)])
     shape = rng.choice(["mf", "or", "opt"])
     if shape == "opt":
